@@ -49,7 +49,7 @@ class C11(Check):
                    'the must-be-zero clause is one-directional (the code may zero more, e.g. spline rejections and region growth)',
                    'output pixels within 1e-6 pixel (float32 grids: 1e-3 pixel) of a good input pixel are free (boundary band)',
                    'reproduction is asserted only >= 5 input pixels away from any bad pixel or edge, for noise-free inputs of period >= 60 px']
-    REQUIRED_COUNTERS = ('deredshift_integer_zfit_nonzero', 'good_stretches_shorter_than_the_spline_order', 'canary_sequences', 'reproduce_without_ivar', 'reproduce_integer_flux', 'reproduce_one_sided_windows', 'scaling_noisy_cases', 'scaling_without_ivar', 'tiny_flux_unit_cases', 'calls_1d', 'calls_2d', 'calls_no_ivar', 'must_be_zero_pixels', 'nonzero_ivar_pixels_interp_checked',
+    REQUIRED_COUNTERS = ('deredshift_objects_with_masked_pixels', 'grid_tiny_cases', 'deredshift_integer_zfit_nonzero', 'good_stretches_shorter_than_the_spline_order', 'canary_sequences', 'reproduce_without_ivar', 'reproduce_integer_flux', 'reproduce_one_sided_windows', 'scaling_noisy_cases', 'scaling_without_ivar', 'tiny_flux_unit_cases', 'calls_1d', 'calls_2d', 'calls_no_ivar', 'must_be_zero_pixels', 'nonzero_ivar_pixels_interp_checked',
                          'allbad_cases', 'disjoint_grid_cases', 'reproduction_cases', 'scaling_cases', 'deredshift_cases',
                          'method_traditional', 'method_noconst', 'method_mean', 'method_damp', 'method_nothing', 'float32_cases',
                          'isolated_good_pixel_cases', 'multi_group_cases')
@@ -129,7 +129,7 @@ class C11(Check):
 
     def _grid(self, rng, ll, dl, kind=None):
         n = ll.size
-        kind = kind or rng.choice(['same', 'same_rounded', 'shift', 'wider', 'narrower', 'coarser', 'finer', 'disjoint', 'wider', 'touching'])
+        kind = kind or rng.choice(['same', 'same_rounded', 'shift', 'wider', 'narrower', 'coarser', 'finer', 'disjoint', 'wider', 'touching', 'tiny'])
         l0 = float(ll[0])
         if kind == 'same':
             nl = ll.copy()
@@ -148,6 +148,11 @@ class C11(Check):
             nl = l0 + dl * f * np.arange(max(3, n // f)) + rng.uniform(0, 1) * dl
         elif kind == 'finer':
             nl = l0 + dl * 0.5 * np.arange(2 * n - 1) + rng.choice([0.0, rng.uniform(0, 0.5)]) * dl
+        elif kind == 'tiny':
+            # an output grid of one, two or three pixels (a single line window), inside the data, across an end, or outside
+            m = rng.randint(1, 3)
+            a = rng.choice([rng.uniform(5, n - 8), rng.uniform(5, n - 8), -1.5, n - 2.3, n + 4.0, float(rng.randint(5, n - 8))])
+            nl = l0 + dl * (a + np.arange(m) * rng.choice([1.0, 1.0, 2.5]))
         elif kind == 'touching':
             # a grid that reaches into the data by only 1-4 pixels, with its first or with its last pixels (F-C5: the only
             # good output pixels are the first one or two)
@@ -277,6 +282,7 @@ class C11(Check):
                     lo = int(sh) + 30
                 feats.append(rng.uniform(lo, n - 30))
             return {'kind': cls, 'n': n, 'l0': l0, 'dl': dl, 'z': z, 'zkind': zkind, 'feat_pix': feats, 'loglam2d': rng.random() < 0.4,
+                    'mask_seed': rng.getrandbits(32) if rng.random() < 0.6 else None,
                     'dead': rng.choice([None, 0, 1, 2, 1, 2]),
                     'method': rng.choice(['mean', 'traditional', 'nothing']), 'noise': rng.choice([0.0, 0.02])}
         raise KeyError(cls)
@@ -365,6 +371,7 @@ class C11(Check):
                    pixels=np.nonzero(bad)[0][:6], x=nl[bad][:6], ivar=i[bad][:6], pattern=case['pattern'], grid=case['grid'])
         out.count('must_be_zero_pixels', int(Z.sum()))
         out.count('disjoint_grid_cases', case['grid'] == 'disjoint')
+        out.count('grid_tiny_cases', case['grid'].startswith('tiny'))
         out.count('allbad_cases', not good2.any())
         out.count('isolated_good_pixel_cases', case['pattern'] == 'isolated' or (two_d and 'isolated' in case['pattern']))
         ncalls_iter = sum(1 for e in self.rec.events if e[0] == 'call' and e[1].endswith('iterfit'))
@@ -504,6 +511,17 @@ class C11(Check):
         for k, p in enumerate(case['feat_pix']):
             flux[k] = 1.0 + 50.0 * np.exp(-0.5 * ((np.arange(n) - p) / 2.0) ** 2) + case['noise'] * g.normal(size=n)
         ivar = np.full((nobj, n), 4.0)
+        # zero-weight pixels in the objects (isolated single pixels, runs, edges), away from the feature
+        if case.get('mask_seed') is not None:
+            import random
+            mr = random.Random(case['mask_seed'])
+            for k in range(nobj):
+                pat = mr.choice(['single_pixels', 'single_pixels', 'runs', 'edges', 'random', 'none'])
+                ivk, _ = self._mask(mr, np.random.default_rng(mr.getrandbits(32)), n, pat)
+                ivar[k] = np.where(ivk > 0, 4.0, 0.0)
+                p = int(round(case['feat_pix'][k]))
+                ivar[k, max(0, p - 10):p + 11] = 4.0
+            out.count('deredshift_objects_with_masked_pixels', nobj)
         # a dead fibre (no good pixel at all) among the objects, at a position given by the case
         dead = case.get('dead')
         if dead is not None and nobj >= 2:
@@ -537,10 +555,28 @@ class C11(Check):
                 continue
             L = l0 + dl * case['feat_pix'][k]
             target = L - np.log10(1 + z[k])
-            peak = nll[int(np.argmax(nf[k]))]
+            # (the feature is looked for among the output pixels that carry weight: with zero-weight input pixels the flux of
+            #  zero-weight output pixels is, by method 'nothing', whatever the spline gave there)
+            #  and next to zero-weight input pixels the fitted flux is not asserted anywhere in this check - see ASSUMPTIONS: the
+            #  reproduction clauses hold >= 5 input pixels away from any bad pixel; the feature itself is kept that far from them)
+            restpos = ll - np.log10(1 + z[k])
+            far = self._far_from_bad(restpos, ivar[k], np.asarray(nll, dtype='f8'), dl)
+            cand = np.where((niv[k] > 0) & far, nf[k], -np.inf)
+            if not np.isfinite(cand).any():
+                out.undecide()
+                continue
+            peak = nll[int(np.argmax(cand))]
             out.expect(abs(peak - target) <= 1.0 * dl, 'deredshift',
                        'feature at log-wavelength %.6f with z=%.4f found at %.6f, expected %.6f (off by %.2f pixels)'
                        % (L, z[k], peak, target, (peak - target) / dl))
+            # must-be-zero, in the object's rest frame: output pixels that do not lie between two adjacent good (shifted) input pixels
+            rest = (ll - np.log10(1 + z[k]))[None, :]
+            Z, free = must_be_zero(rest, (ivar[k] > 0)[None, :], np.asarray(nll, dtype='f8'), dl)
+            badz = Z & (niv[k] != 0)
+            out.expect(not bool(badz.any()), 'must-be-zero',
+                       'object %d (z=%.4f): inverse variance non-zero at %d output pixels that do not lie between two adjacent good input '
+                       'pixels' % (k, z[k], int(badz.sum())), pixels=np.nonzero(badz)[0][:6], ivar=niv[k][badz][:6])
+            out.count('deredshift_must_be_zero_pixels', int(Z.sum()))
             # the blue end that has no data after shifting must carry zero inverse variance
             nodata = nll > ll[-1] - np.log10(1 + z[k]) + 2 * dl
             out.expect(bool(np.all(niv[k][nodata] == 0)), 'must-be-zero', 'inverse variance beyond the shifted data range')
